@@ -38,7 +38,8 @@ var (
 // CatalogCfg tunes catalog generation.
 type CatalogCfg struct {
 	MinTypes, MaxTypes int
-	Reserved           bool // add reserved offerings
+	Reserved           bool    // add reserved offerings
+	PZeroPrice         float64 // probability that an offering is free (price overlays can set a price to exactly 0)
 	// PReservedUnavailable: probability that a reserved offering is marked unavailable (an exhausted capacity reservation)
 	PReservedUnavailable float64
 	Overrides            bool    // capacity/overhead overrides on some offerings
@@ -117,6 +118,9 @@ func Catalog(rng *rand.Rand, cfg CatalogCfg, prefix string) ([]*cloudprovider.In
 						f = 1.0
 					}
 					price = base * f
+				}
+				if cfg.PZeroPrice > 0 && rng.Float64() < cfg.PZeroPrice {
+					price = 0
 				}
 				o := OfferingSpec{Zone: Zones[zi], CapType: ct, Price: round4(price), Available: rng.Float64() >= cfg.PUnavailable}
 				if cfg.Overrides && rng.Intn(10) == 0 && cpu > 1 {
